@@ -21,6 +21,7 @@ def _mixins_module():
     with open(os.path.join(SCRATCH, "pyvc_mixins.py"), "w") as f:
         f.write(textwrap.dedent("""
             class OpFieldMixin: pass
+            class SecondMixin: pass
             class FragDefMixin: pass
             class FragFieldMixin: pass
             class InlinedMixin: pass
@@ -78,6 +79,16 @@ SCENARIOS = {
         fragment BB on Bot { model }
         query GetActor { actor @mixin(from: "pyvc_mixins", import: "OpFieldMixin") { __typename ... on User { ...UB } ... on Bot { ...BB } } }
     """, {"get_actor": {"GetActorActorUser": ["OpFieldMixin", "UB"], "GetActorActorBot": ["OpFieldMixin", "BB"]}}),
+    "two-mixins-from-one-module-on-one-field-and-on-fragments": ("""
+        fragment WithTwo on User @mixin(from: "pyvc_mixins", import: "FragDefMixin") @mixin(from: "pyvc_mixins", import: "SecondMixin") { id }
+        fragment Other on User @mixin(from: "pyvc_mixins", import: "OpFieldMixin") { name }
+        query GetMe { me @mixin(from: "pyvc_mixins", import: "OpFieldMixin") @mixin(from: "pyvc_mixins", import: "SecondMixin") { id ...WithTwo ...Other } }
+    """, {"get_me": {"GetMeMe": ["OpFieldMixin", "SecondMixin", "WithTwo", "Other"]}, "fragments": {"WithTwo": ["FragDefMixin", "SecondMixin"], "Other": ["OpFieldMixin"]}}),
+    "fragment-on-interface-spread-inside-an-inline-fragment-on-that-interface": ("""
+        fragment NodeFields on Node { id }
+        query GetMe { me { ... on Node { ...NodeFields } name } }
+        query GetNode { node { ...NodeFields } }
+    """, {"get_node": {"GetNodeNode": ["NodeFields"]}, "fragments": {"NodeFields": ["BaseModel"]}}),
     "plain-fragment-spread-inside-an-unpacked-fragment-keeps-its-class": ("""
         fragment UserBase on User { name }
         fragment UserDetails on User { ...UserBase ... on Node { id } }
